@@ -65,6 +65,10 @@ pub struct Case {
     /// an earlier update-engine (to this configuration) followed by more words, before the edit
     #[serde(default)]
     pub mid: Option<(String, Vec<WordStep>)>,
+    /// AFTER the edit the context is first told another configuration (cfg2 with one option the other way: the list,
+    /// ANSI, English, or another layout) and only then cfg2: two update-engine calls with no edit in between
+    #[serde(default)]
+    pub via: Option<u8>,
 }
 
 const STORE0: &str = "{\"sesh\":\"\u{09B6}\u{09C7}\u{09B7}\",\"onno\":\"\u{0985}\u{09A8}\u{09CD}\u{09AF}\",\"a\":\"\u{0986}\u{0983}\",\"park\":\"\u{09AA}\u{09BE}\u{09B0}\u{0995}\",\"ami\":\"\u{0986}\u{09AE}\u{0987}\"}";
@@ -226,6 +230,26 @@ pub fn run_case(c: &Case, st: &mut Stats) -> Result<(), Failure> {
     // update A, create B over a copy
     if a.ongoing() {
         a.finish().map_err(pf)?;
+    }
+    if let Some(v) = c.via {
+        let mut o = cfg2;
+        match v % 5 {
+            0 | 1 => {
+                o.psug = !o.psug;
+                o.fsug = !o.fsug;
+            }
+            2 => o.ansi = !o.ansi,
+            3 => o.english = !o.english,
+            _ => o.layout = if o.is_phonetic() { crate::driver::Layout::Probhat } else { crate::driver::Layout::Phonetic },
+        }
+        a.update(o, &sb).map_err(pf)?;
+        if v % 2 == 0 {
+            if let Some(w) = h1_words.first() {
+                a.type_frontend(w).map_err(pf)?;
+                a.finish().map_err(pf)?;
+            }
+        }
+        st.label("two-updates-after-the-edit");
     }
     a.update(cfg2, &sb).map_err(pf)?;
     let copy = sb.duplicate();
@@ -464,8 +488,8 @@ pub fn strategy() -> impl Strategy<Value = Case> {
         2 => Just(None),
         1 => (0usize..3, 0u16..2048, proptest::collection::vec(step(), 1..4)).prop_map(|(l, b, steps)| Some((crate::driver::Opts::from_bits(l, b | 0b110).letters(), steps))),
     ];
-    (cfgs, prop_oneof![1 => Just(None), 1 => any::<u8>().prop_map(Some)], proptest::collection::vec(step(), 0..5), edit, proptest::collection::vec(step(), 1..6), any::<bool>(), mid)
-        .prop_map(|((cfg1, cfg2), ac0, h1, edit, h2, store0, mid)| {
+    (cfgs, prop_oneof![1 => Just(None), 1 => any::<u8>().prop_map(Some)], proptest::collection::vec(step(), 0..5), edit, proptest::collection::vec(step(), 1..6), any::<bool>(), mid, prop_oneof![2 => Just(None), 1 => any::<u8>().prop_map(Some)])
+        .prop_map(|((cfg1, cfg2), ac0, h1, edit, h2, store0, mid, via)| {
             // the middle configuration keeps the layout of cfg1 half of the time (option flips only)
             let mid = mid.map(|(m, steps): (String, Vec<WordStep>)| {
                 let mut o = crate::driver::Opts::parse(&m);
@@ -477,7 +501,7 @@ pub fn strategy() -> impl Strategy<Value = Case> {
                 }
                 (o.letters(), steps)
             });
-            Case { cfg1, cfg2, ac0, h1, edit, h2, store0, mid }
+            Case { cfg1, cfg2, ac0, h1, edit, h2, store0, mid, via }
         })
 }
 
@@ -491,6 +515,7 @@ pub fn run(run: &Run) {
     run.require_label("file-away-update-and-back-untouched", 20);
     run.require_label("store-exists-before-creation", 100);
     run.require_label("two-updates", 100);
+    run.require_label("two-updates-after-the-edit", 100);
 }
 
 pub fn replay(_run: &Run, case: &Value) -> Result<(), Failure> {
